@@ -89,6 +89,7 @@ class Rec:
         self.spec, self.n, self.lazy, self.pull_mode = w.spec, w.n, w.lazy, w.pull_mode
         self.rewrote, self.labels, self.obs, self.macro = w.rewrote, w.labels, w.obs, w.macro
         self.failures, self.errors, self.nevents = w.failures, w.errors, len(w.events)
+        self.diag = w.diag[:6]
 
 
 class World:
@@ -112,6 +113,7 @@ class World:
         self.ncommit = 0
         self.rewrote = False
         self.remote = None
+        self.diag = []            # (label, rc, stderr tail) of the user-level commands that failed
 
     # -------- setup
     def setup(self):
@@ -317,6 +319,12 @@ exit 0
         self.obs.append(o)
         return raw
 
+    def cmd(self, cl, label, *args):
+        rc, out, err = cl.git(*args)
+        if rc != 0:
+            self.diag.append([label, rc, err[-400:]])
+        return rc
+
     def ensure(self, i, raw):
         if self.clones[i] is None:
             self.make_clone(i)
@@ -357,13 +365,13 @@ exit 0
                 self.rewrote = True
             return self.record(f"rewrite c{i} c{idx}", [["rewrite", i, idx]], raw)
         if kind == "fetch":
-            cl.git("fetch", "origin")
+            self.cmd(cl, f"fetch c{i}", "fetch", "origin")
             return self.record(f"fetch c{i}", [["fetch", i]], raw)
         if kind == "pull":
-            cl.git("pull", "--no-rebase", "--no-edit", "origin")
+            cl.git("pull", "--no-rebase", "--no-edit", "origin")     # may fail: upstream branch not pushed yet
             return self.record(f"pull c{i}", [["pull", i]], raw)
         if kind == "push":
-            cl.git("push", "origin", f"b{i}")
+            self.cmd(cl, f"push c{i}", "push", "origin", f"b{i}")
             return self.record(f"push c{i}", [["push", i]], raw, push_of=i)
         if kind in ("race", "raceh"):
             j = st[2]
@@ -400,7 +408,7 @@ exit 0
         for st in self.spec["steps"]:
             raw = self.do(st, raw)
         if tail and self.spec.get("tail", True):
-            raw = self.tail(raw)
+            raw = self.tail(raw, light=bool(self.spec.get("light")))
         return self
 
     def tail(self, raw, light=False):
@@ -412,9 +420,9 @@ exit 0
             if any(c is None for c in self.clones):
                 return raw
             for i in range(self.n):
-                self.clones[i].git("push", "origin", f"b{i}")
+                self.cmd(self.clones[i], f"tail push c{i}", "push", "origin", f"b{i}")
             for i in range(self.n):
-                self.clones[i].git("fetch", "origin")
+                self.cmd(self.clones[i], f"tail fetch c{i}", "fetch", "origin")
             raw = self.record("pushAll+fetchAll", [["push", i] for i in range(self.n)] + [["fetch", i] for i in range(self.n)], raw)
         else:
             for i in range(self.n):
@@ -547,8 +555,12 @@ def canonical_first_use(seq):
 
 
 # ------------------------------------------------------------------ accounting
-def account(res, w, out, origin):
-    """fold one executed scenario into the result; returns True iff prediction == observation."""
+def account(res, w, out, origin, retry=2):
+    """fold one executed scenario into the result; returns True iff prediction == observation.
+    A disagreement (or a scenario that could not be executed) without any oracle failure is
+    re-executed from scratch: scenarios are deterministic, so only a disagreement that persists
+    counts as a broken tie; transient ones (an overloaded machine making a user-level git command
+    fail) are counted in the evidence. Oracle failures are never filtered."""
     key = json.dumps({k: w.spec[k] for k in ("n", "lazy", "pull_mode", "steps") if k in w.spec}, sort_keys=True)
     res.count_case(key)
     tags = [f"n={w.n}", f"pull_mode={w.pull_mode}", f"origin={origin}", f"lazy={sum(1 for x in w.lazy if x)}",
@@ -564,14 +576,20 @@ def account(res, w, out, origin):
                                       "labels": w.labels,
                                       "replay": "python3 -c \"from vlib.props import c10; c10.replay(<this witness' scenario>)\" (cwd /verif)"},
                            what=f["what"])
-    if w.errors:
-        res.broken_tie("e2e scenario could not be executed", {"scenario": w.spec, "errors": w.errors[:3]})
-        return False
-    d = compare(w, out)
-    if d:
-        res.broken_tie("correspondence:sync-e2e", {"scenario": w.spec, "labels": w.labels, "first_difference": d})
-        return False
-    return True
+    d = {"errors": w.errors[:3]} if w.errors else compare(w, out)
+    if not d:
+        return True
+    detail = {"scenario": w.spec, "labels": w.labels, "first_difference": d, "failed_commands": w.diag}
+    if not w.failures and retry > 0:
+        w2 = run_spec(w.spec)
+        out2 = run_model([w2])[0]
+        if not w2.errors and not w2.failures and compare(w2, out2) is None:
+            res.tag(["transient-disagreement (re-execution agrees with the model)"])
+            res.extra.setdefault("transient_disagreements", []).append(C.trunc(detail, 1200))
+            return True
+        return account(res, w2, out2, origin + ":retry", retry - 1)
+    res.broken_tie("e2e scenario could not be executed" if w.errors else "correspondence:sync-e2e", detail)
+    return False
 
 
 def run_batch(res, specs, origin):
@@ -646,7 +664,7 @@ def enum_subtree(args):
                 if child is not world:
                     shutil.rmtree(child.env.root, ignore_errors=True)
 
-    w = World({"n": n, "lazy": [False] * n, "pull_mode": "ff", "relurl": True, "steps": [], "tail": True})
+    w = World({"n": n, "lazy": [False] * n, "pull_mode": "ff", "relurl": True, "light": True, "steps": [], "tail": True})
     try:
         with w.env:
             w.setup()
